@@ -389,6 +389,50 @@ fn emit_fn(
         rw.visit_block_mut(&mut block);
     }
     rules::mut_self(&mut sig, &mut block, fired);
+    // R-chainlet: `a.m1(x).m2(y)` in tail position => `let __c0 = a.m1(x); let __c1 = __c0.m2(y); __c1`
+    if contract.map(|c| c.chainlet).unwrap_or(false) {
+        if let Some(Stmt::Expr(tail, None)) = block.stmts.pop() {
+            let mut calls: Vec<syn::ExprMethodCall> = Vec::new();
+            let mut cur = tail.clone();
+            loop {
+                match cur {
+                    syn::Expr::MethodCall(mc) => {
+                        let recv = (*mc.receiver).clone();
+                        calls.push(mc);
+                        cur = recv;
+                    }
+                    other => {
+                        cur = other;
+                        break;
+                    }
+                }
+            }
+            if calls.is_empty() {
+                block.stmts.push(Stmt::Expr(tail, None));
+            } else {
+                calls.reverse();
+                let mut prev: syn::Expr = cur;
+                for (k, mut mc) in calls.into_iter().enumerate() {
+                    let id = syn::Ident::new(&format!("__c{}", k), Span::call_site());
+                    mc.receiver = Box::new(prev);
+                    let e = syn::Expr::MethodCall(mc);
+                    block.stmts.push(syn::parse_quote!(let mut #id = #e;));
+                    if let Some(c) = contract {
+                        for (i, (anchor, _)) in c.inserts.iter().enumerate() {
+                            if let Anchor::Chain(n) = anchor {
+                                if *n == k {
+                                    block.stmts.push(rules::quote_marker(i));
+                                }
+                            }
+                        }
+                    }
+                    prev = syn::parse_quote!(#id);
+                }
+                block.stmts.push(Stmt::Expr(prev, None));
+                *fired.entry("R-chainlet".into()).or_insert(0) += 1;
+            }
+        }
+    }
     let mut markers = Markers::default();
     // loops
     let empty = ItemContract::default();
@@ -477,7 +521,7 @@ fn emit_fn(
                     die(&format!("{}: @insert loop {}: no such loop (lost anchor)", selector, k));
                 }
             }
-            Anchor::After(_) | Anchor::Before(_) => {}
+            Anchor::After(_) | Anchor::Before(_) | Anchor::Chain(_) => {}
         }
     }
 
